@@ -331,3 +331,14 @@ func VerifHlsSweep(sm *ServerManager) {
 		hls.VerifSweep(sm.hlsServerHandler)
 	}
 }
+
+// VerifFillFps creates the stream's group and gives it a full history of per-second video frame counts
+// (the 32 seconds before nowSec), as a stream that has been live for a while has.
+func VerifFillFps(sm *ServerManager, appName, streamName string, nowSec int64) {
+	sm.mutex.Lock()
+	g := sm.getOrCreateGroup(appName, streamName)
+	sm.mutex.Unlock()
+	for i := int64(1); i <= 32; i++ {
+		g.inVideoFpsRecords.Add(nowSec-i, 25)
+	}
+}
